@@ -287,7 +287,7 @@ func runC20(c *Ctx) {
 			continue
 		}
 		call := impCalls[0]
-		rightWindow := call.Call.StaticCallee().Name() == g.imp
+		rightWindow := core.FnName(call.Call.StaticCallee()) == g.imp
 		var ret ssa.Value
 		for _, r := range core.Returns(fn) {
 			ret = r.Results[0]
@@ -309,7 +309,7 @@ func runC20(c *Ctx) {
 		want := map[bool]string{true: "x8/1000", false: "raw"}[g.scaled]
 		R.Check(rightWindow && shape == want, "C20.scale", key+"|scale", P.Pos(fn.Pos()),
 			"reads "+g.imp+" with scaling "+want,
-			fmt.Sprintf("reads %s with scaling %s (expected %s with %s)", call.Call.StaticCallee().Name(), shape, g.imp, want), nil)
+			fmt.Sprintf("reads %s with scaling %s (expected %s with %s)", core.FnName(call.Call.StaticCallee()), shape, g.imp, want), nil)
 	}
 
 	// ---- C20.window
@@ -352,7 +352,7 @@ func runC20(c *Ctx) {
 		var sub *ssa.BinOp
 		core.EachInstr(smp, func(in ssa.Instruction) {
 			if bo, ok := in.(*ssa.BinOp); ok && bo.Op == token.SUB {
-				if _, isP := core.StripConv(bo.X).(*ssa.Parameter); isP && core.Path(bo.Y) == smp.Params[0].Name()+".count" {
+				if _, isP := core.StripConv(bo.X).(*ssa.Parameter); isP && core.Path(bo.Y) == core.ParamName(smp.Params[0])+".count" {
 					sub = bo
 				}
 			}
